@@ -129,6 +129,23 @@ def run(chk: core.Check, replay=None) -> None:
         pair(b, "C12.Mirror", ok, partner=a["tid"], what="iteration states with spin drift in play")
         chk.stratum("mirror_with_spin")
     # ---- zero wind / empty list / no wind, and the sign conventions
+    # earlier in the same process the caller edited, in place, the wind objects an UNRELATED shot without winds reported
+    # (shot.winds[0].velocity = ...): whatever a shot hands out belongs to that shot - every later shot given no wind, an
+    # empty list or None through the setter is still calm
+    import py_ballisticcalc as m_
+    for how in ("ctor-none", "ctor-empty", "setter-none", "setter-empty"):
+        other = shots.build_shot(shots.gen_shot(rng, winds=0, look=0.0))
+        if how == "ctor-empty":
+            other = m_.Shot(other.weapon, other.ammo, winds=[])
+        elif how == "setter-none":
+            other.winds = None
+        elif how == "setter-empty":
+            other.winds = []
+        for w_ in other.winds:
+            w_.velocity = m_.Unit.MPH(40)
+            w_.direction_from = m_.Unit.Degree(90)
+            w_.until_distance = m_.Unit.Foot(1e8)
+    chk.stratum("default_wind_of_another_shot_edited")
     for i in range(max(2, n // 3)):
         sc = base_scenario(rng, thorough, 0, [])
         none = fire(sc)
@@ -170,7 +187,7 @@ def run(chk: core.Check, replay=None) -> None:
         (l for l in outs[0]["lines"] if l["ev"] == "Iter"), None)})
     chk.sample({"pair_lines": pairs[:3]})
     chk.sample({"tlc_behaviour": {k: v for k, v in behs[0].items() if k != "consts"}})
-    chk.require_strata(["obj_duplicate_wind_ends", "duplicate_until", "zero_until", "switch_inside_range", "pair_OrderInsensitive",
+    chk.require_strata(["default_wind_of_another_shot_edited", "obj_duplicate_wind_ends", "duplicate_until", "zero_until", "switch_inside_range", "pair_OrderInsensitive",
                         "pair_Causal", "pair_Mirror", "mirror_with_spin", "pair_ZeroWindEqualsNoWind", "pair_Signs"])
     chk.exhaustive = False
     chk.rule.append("design: Integrator.tla (C12_SegmentByPosition) on wind-end lists with duplicates, zeros and ends beyond range; "
